@@ -25,13 +25,13 @@ def body(c, prop="C12", kinds='{"val", "del"}', nvks=(1,), invariants=("ReadStab
     # 2. state injection, L0->Lbase and Li->Li+1 (MinL0L0 irrelevant for these families)
     allcases = []
     for nvk in nvks:
-        g = dict(base, Keys="{1, 2, 3}", NVK=str(nvk), MaxTs="5", MaxId="9", L0Hold="0", MtMax="2")
+        g = dict(base, Keys="{1, 2, 3}", NVK=str(nvk), MaxTs="5", MaxId="9", Wide="0", L0Hold="0", MtMax="2")
         cases = L.generate(c, "walk NVK=%d" % nvk, g, c.seed + nvk, simulate=(2500 if q else 30000), depth=32, workers=4)
         cases = [x for x in cases if x["fam"] != "L0ToL0"]
         allcases += cases
     # 3. L0->L0 with the code's constant (4 tables): shaped walk that lets level 0 fill up
     for nvk in nvks:
-        g = dict(base, Keys="{1, 2}", NVK=str(nvk), MaxTs="9", MaxId="16", MinL0L0="4", L0Hold="99", MtMax="1")
+        g = dict(base, Keys="{1, 2}", NVK=str(nvk), MaxTs="9", MaxId="16", MinL0L0="4", Wide="0", L0Hold="99", MtMax="1")
         cases = L.generate(c, "L0L0 NVK=%d" % nvk, g, c.seed + 10 + nvk, simulate=(1500 if q else 20000), depth=60, workers=4)
         cases = [x for x in cases if x["fam"] == "L0ToL0"]
         rest = [x for x in cases if any(t["big"] or not t["aged"] for t in x["pre"]["L0"])]
